@@ -126,6 +126,9 @@ class Tle:
 
         if isinstance(text, str):
             text = text.splitlines()
+        else:
+            # The name line is popped below: work on a copy, not on the caller's sequence
+            text = list(text)
 
         self.name = ""
         if len(text) == 3:
